@@ -2,6 +2,8 @@ import BlugeProofs.C01
 import BlugeProofs.C06.Equiv
 import BlugeProofs.C06.Align
 import BlugeProofs.C19.Plan
+import BlugeProofs.C06.Facts
+import BlugeGen.C06
 /-! # C06 — background merges and persists never change logical content
 
 Property theorems only (lemmas: `BlugeProofs/C06/*.lean` and C01's `BlugeProofs/C01/*.lean`; model: `Bluge/Index.lean`
@@ -13,6 +15,16 @@ harness checks that on every real `Merge` (`bad:assumption-merge-wf`).
 `~` is `List.Perm`, `Root.abs` the live documents of a root, `absOf` the abstract index (`foldl applyBatch []`). -/
 namespace Bluge.C06
 open Bluge.Index List
+
+/-! ## the tie to the source (Gen) -/
+
+/-- The statements of `ProcessSegmentNow`, `introduceMerge`, `introducePersist`, `introduceSegment`,
+`persistSnapshotMaybeMerge`, `mergeSegmentBases`, `planSegmentsToMerge`, `executeMergeTask` and `segmentSnapshot.Count/
+DocNumbersLive` that touch the deleted bitmaps, the doc-number tables, the running offsets and `old`, extracted from
+/repo's current source, are the ones the model was transcribed from (`BlugeProofs/C06/Facts.lean` says where each went);
+in particular the set algebra is `roaring.AndNot` / `roaring.Or` (pure), and no method that mutates a bitmap is ever
+called on a `deleted` bitmap. -/
+theorem gen_facts_match_model : BlugeGen.C06.facts = expectedFacts := by decide
 
 /-! ## what never changes: segment ids, segment contents, deleted sets only grow -/
 
